@@ -268,3 +268,38 @@ def link_bytes(link):
 
 def valid_tcp_port(n):
     return 1 <= n and n <= 65534
+
+
+def wellformed_tag(tag):
+    """documented tag syntax as far as the path builder relies on it: every '[' ... ']' holds 1-3 decimal indices"""
+    if not isinstance(tag, str):
+        return False
+    for part in tag.split("."):
+        if "[" in part or "]" in part:
+            if part.count("[") != 1 or not part.endswith("]") or part.index("[") == 0:
+                return False
+            inner = part[part.index("[") + 1:-1]
+            idx = inner.split(",")
+            if len(idx) > 3:
+                return False
+            for i in idx:
+                if not (i.isdigit() and i.isascii()) or int(i) > 0xFFFFFFFF:
+                    return False
+    return True
+
+
+def tag_path_or_raise(fn, tag, tag_info, use_instance_ids):
+    """what callers may rely on for tag_request_path: an exception for a tag outside the documented syntax (the index is
+    not a number that fits 32 bits), otherwise the path bytes (abstracted)"""
+    from spec.abstract import bytes_of
+    if not wellformed_tag(tag):
+        raise ValueError("malformed tag")
+    return bytes_of(fn, tag, tag_info, use_instance_ids)
+
+
+def raises_something(thunk):
+    try:
+        thunk()
+    except Exception:
+        return True
+    return False
